@@ -1,5 +1,5 @@
 ----------------------------- MODULE SpscQueue -----------------------------
-(* DRAFT (round 0).  may_queue/src/spsc.rs with the `inner_cache` feature (default):
+(* may_queue/src/spsc.rs with the `inner_cache` feature (default):
    producer-side cache of consumed blocks  first .. last_head.  Blocks are addresses from a
    finite pool; a block handed out by alloc_node() is one the consumer has *left* (according
    to the producer's snapshot of head.block), its `next` is NOT reset (the code comments the
